@@ -66,9 +66,13 @@ def verify_independent(pub_bytes, message, sig, tweak_bytes=None):
             vk = ecdsa.VerifyingKey.from_public_point(point, curve=SECP,
                                                       hashfunc=hashlib.sha256)
         r, s = sigdecode_der(sig, N)
-        if s > N // 2:
+        try:
+            ok = bool(vk.verify(sig, message, hashfunc=hashlib.sha256, sigdecode=sigdecode_der))
+        except Exception:
+            ok = False
+        if ok and s > N // 2:
             return None          # high-S: mathematically valid, libsecp256k1 refuses; ambiguous
-        return bool(vk.verify(sig, message, hashfunc=hashlib.sha256, sigdecode=sigdecode_der))
+        return ok
     except Exception:
         return False
 
@@ -82,7 +86,8 @@ def v1_extract(name, message):
 
 
 def v1_message_for(name, pub, filler):
-    """A message whose extractor yields `pub` (65-byte uncompressed key)."""
+    """A message whose extractor yields `pub` (65-byte uncompressed or 33-byte compressed key;
+    the device message carries the key in its last 65 bytes, uncompressed only)."""
     if name == "device":
         return filler + pub
     if name == "attestation":
